@@ -1,1 +1,296 @@
-/-! Property theorems for C05 (none yet). -/
+import MirVerif.Lemmas.AbiX64
+/-!
+# Property C05 — calls from MIR code to native functions follow the x86-64 System V ABI
+
+All statements quantify over **every argument list** (any length, any mix of the MIR argument
+vocabulary) and are proved by induction over the list with the allocation counters as invariant
+(`Lemmas.run_sim`, relation `Rel`: the psABI state is the code state with counters saturated at the
+register-file sizes, stack offsets equal and multiples of 8).
+
+Models (`Model/AbiX64.lean`): `sysvPlace` = psABI specification; `ffPlace cfg` = `_MIR_get_ff_call`
+(interpreter FFI); `genPlace cfg` = `machinize_call` (generated code).  `Cfg.current` transcribes the
+pinned tree, `Cfg.fixed` the tree with the candidate repairs in `/verif/fixes/C05-*.patch`; the check
+detects from pinned witnesses which one the tree under test implements.
+
+Status of the full statements on the pinned tree (`Cfg.current`):
+* `∀ args, ffPlace .current args = sysvPlace args`  — **false** (`ff_meets_sysv_false_ld`,
+  `ff_meets_sysv_false_blk`): long double after an odd number of stack words; blk1/blk3/blk4 skew the
+  xmm counter.  Proved: `ff_meets_sysv_partial` (explicit hypotheses) and `ff_meets_sysv_fixed`.
+* `∀ args, genPlace .current args = sysvPlace args` — **false** (`gen_meets_sysv_false`): long double.
+  Proved: `gen_meets_sysv_partial`, `gen_meets_sysv_fixed`.
+* `∀ args, ffPlace .current args = genPlace .current args` — **false** (`ff_eq_gen_false`).
+  Proved: `ff_eq_gen_partial`, `ff_eq_gen_fixed`.
+* `∀ args, alOk (genAl .current args) args` — **false** (`gen_al_false`): `%al` ignores blk2/3/4.
+  Proved: `gen_al_partial`, `gen_al_fixed`.
+-/
+namespace MirVerif.AbiX64
+
+/-- every block kind is used with a size for which the kind has an ABI meaning -/
+def WellSizedArgs (args : List ArgTy) : Prop := ∀ a ∈ args, a.WellSized
+
+/-- no blk1/blk3/blk4 argument (the kinds that trigger the xmm-counter defect of the FFI path) -/
+def NoBlk134 (args : List ArgTy) : Prop := ∀ a ∈ args, isBlk134 a = false
+
+/-- no blk2/blk3/blk4 argument (the kinds whose xmm registers `%al` does not count) -/
+def NoBlk234 (args : List ArgTy) : Prop := ∀ a ∈ args, isBlk234 a = false
+
+/-- "every `long double` stack offset is already 16-aligned": along the psABI placement, whenever a
+`long double` is placed the stack offset is a multiple of 16 -/
+def LdAligned (args : List ArgTy) : Prop :=
+  Along sysvStep (fun st a => a = .ld → st.sp % 16 = 0) St.init args
+
+instance decAlong (Q : St → ArgTy → Prop) [∀ s a, Decidable (Q s a)] (step) :
+    ∀ (args : List ArgTy) (s : St), Decidable (Along step Q s args)
+  | [], _ => isTrue trivial
+  | a :: as, s =>
+    match ‹∀ s a, Decidable (Q s a)› s a, decAlong Q step as (step s a).1 with
+    | isTrue h1, isTrue h2 => isTrue ⟨h1, h2⟩
+    | isFalse h1, _ => isFalse fun h => h1 h.1
+    | _, isFalse h2 => isFalse fun h => h2 h.2
+
+instance (args : List ArgTy) : Decidable (LdAligned args) := by unfold LdAligned; infer_instance
+instance (args : List ArgTy) : Decidable (WellSizedArgs args) := by unfold WellSizedArgs; infer_instance
+instance (args : List ArgTy) : Decidable (NoBlk134 args) := by unfold NoBlk134; infer_instance
+instance (args : List ArgTy) : Decidable (NoBlk234 args) := by unfold NoBlk234; infer_instance
+
+/-! ## generic core: both code paths simulate the reference step for step -/
+
+private theorem rel_init : Rel St.init St.init := ⟨by decide, by decide⟩
+
+private theorem ff_run (cfg : Cfg) (args : List ArgTy) (hws : WellSizedArgs args)
+    (hsk : cfg.ffBlkXmm = true ∨ NoBlk134 args) :
+    (run (ffStep cfg) St.init args).2 = (run (refStep cfg.ldAlignFF) St.init args).2 ∧
+    Rel (run (ffStep cfg) St.init args).1 (run (refStep cfg.ldAlignFF) St.init args).1 := by
+  apply run_sim (ffStep cfg) (refStep cfg.ldAlignFF) Rel
+    (fun _ a => a.WellSized ∧ (cfg.ffBlkXmm = true ∨ isBlk134 a = false))
+  · intro c s a hr hq
+    obtain ⟨rfl, h8⟩ := hr
+    obtain ⟨h1, h2, h3⟩ := ff_step_sim cfg c a hq.1 hq.2 h8
+    exact ⟨h1, h2, h3⟩
+  · exact rel_init
+  · apply along_of_forall
+    intro a ha
+    refine ⟨hws a ha, ?_⟩
+    rcases hsk with h | h
+    · exact Or.inl h
+    · exact Or.inr (h a ha)
+
+private theorem gen_run (cfg : Cfg) (args : List ArgTy) (hws : WellSizedArgs args) :
+    (run (genStep cfg) St.init args).2 = (run (refStep cfg.ldAlignGen) St.init args).2 ∧
+    Rel (run (genStep cfg) St.init args).1 (run (refStep cfg.ldAlignGen) St.init args).1 := by
+  apply run_sim (genStep cfg) (refStep cfg.ldAlignGen) Rel (fun _ a => a.WellSized)
+  · intro c s a hr hq
+    obtain ⟨rfl, h8⟩ := hr
+    obtain ⟨h1, h2, h3⟩ := gen_step_sim cfg c a hq h8
+    exact ⟨h1, h2, h3⟩
+  · exact rel_init
+  · exact along_of_forall _ _ _ _ hws
+
+/-- the reference with unaligned `long double` coincides with the psABI on `LdAligned` lists -/
+private theorem ref_run (args : List ArgTy) (hld : LdAligned args) :
+    (run (refStep false) St.init args).2 = (run sysvStep St.init args).2 ∧
+    (run (refStep false) St.init args).1 = (run sysvStep St.init args).1 := by
+  have := run_sim (refStep false) sysvStep (fun c s => c = s ∧ s.sp % 8 = 0)
+    (fun st a => a = .ld → st.sp % 16 = 0)
+    (by
+      intro c s a hr hq
+      obtain ⟨rfl, h8⟩ := hr
+      obtain ⟨h1, h2⟩ := ref_step_false_true c a h8 hq
+      exact ⟨by rw [h1]; rfl, by rw [h1]; rfl, h2⟩)
+    args St.init St.init ⟨rfl, by decide⟩ hld
+  exact ⟨this.1, this.2.1⟩
+
+private theorem placement_of_rel {c s : St} {l l' : List (List Loc)} (hl : l = l') (hr : Rel c s) :
+    (⟨l, ffFrame c.sp - 8, min c.nx 8⟩ : Placement) = finish (s, l') ∧
+    (⟨l, (c.sp + 15) / 16 * 16, min c.nx 8⟩ : Placement) = finish (s, l') := by
+  obtain ⟨rfl, _⟩ := hr
+  subst hl
+  simp [finish, St.norm, ffFrame, roundUp]
+
+/-! ## argument placement: interpreter FFI (`_MIR_get_ff_call`) -/
+
+/-- **ff_meets_sysv** for the repaired trampoline: every argument's location, the stack size and
+the sse-register count agree with the psABI, for every argument list. -/
+theorem ff_meets_sysv_fixed (cfg : Cfg) (hl : cfg.ldAlignFF = true) (hb : cfg.ffBlkXmm = true)
+    (args : List ArgTy) (hws : WellSizedArgs args) : ffPlace cfg args = sysvPlace args := by
+  obtain ⟨h1, h2⟩ := ff_run cfg args hws (Or.inl hb)
+  rw [hl] at h1 h2
+  exact (placement_of_rel h1 h2).1
+
+/-- **ff_meets_sysv_partial**, the pinned tree: holds when every `long double` stack offset is
+already 16-aligned and no blk1/blk3/blk4 argument occurs. -/
+theorem ff_meets_sysv_partial (args : List ArgTy) (hws : WellSizedArgs args) (hnb : NoBlk134 args)
+    (hld : LdAligned args) : ffPlace Cfg.current args = sysvPlace args := by
+  obtain ⟨h1, h2⟩ := ff_run Cfg.current args hws (Or.inr hnb)
+  obtain ⟨r1, r2⟩ := ref_run args hld
+  have h1' : (run (ffStep Cfg.current) St.init args).2 = (run sysvStep St.init args).2 := h1.trans r1
+  have h2' : Rel (run (ffStep Cfg.current) St.init args).1 (run sysvStep St.init args).1 := by
+    rw [← r2]; exact h2
+  exact (placement_of_rel h1' h2').1
+
+/-- the full statement is false on the pinned tree: `i64 ×7, ld` (DESIGN §6 #11) -/
+theorem ff_meets_sysv_false_ld :
+    ffPlace Cfg.current [.i64, .i64, .i64, .i64, .i64, .i64, .i64, .ld]
+      ≠ sysvPlace [.i64, .i64, .i64, .i64, .i64, .i64, .i64, .ld] := by decide
+
+/-- the full statement is false on the pinned tree: `struct{long}` then `double` -/
+theorem ff_meets_sysv_false_blk :
+    ffPlace Cfg.current [.blk .b1 8, .d] ≠ sysvPlace [.blk .b1 8, .d] := by decide
+
+/-! ## argument placement: generated code (`machinize_call`) -/
+
+/-- **gen_meets_sysv** for the repaired generator -/
+theorem gen_meets_sysv_fixed (cfg : Cfg) (hl : cfg.ldAlignGen = true)
+    (args : List ArgTy) (hws : WellSizedArgs args) : genPlace cfg args = sysvPlace args := by
+  obtain ⟨h1, h2⟩ := gen_run cfg args hws
+  rw [hl] at h1 h2
+  exact (placement_of_rel h1 h2).2
+
+/-- **gen_meets_sysv_partial**, the pinned tree: holds when every `long double` stack offset is
+already 16-aligned. -/
+theorem gen_meets_sysv_partial (args : List ArgTy) (hws : WellSizedArgs args) (hld : LdAligned args) :
+    genPlace Cfg.current args = sysvPlace args := by
+  obtain ⟨h1, h2⟩ := gen_run Cfg.current args hws
+  obtain ⟨r1, r2⟩ := ref_run args hld
+  have h1' : (run (genStep Cfg.current) St.init args).2 = (run sysvStep St.init args).2 := h1.trans r1
+  have h2' : Rel (run (genStep Cfg.current) St.init args).1 (run sysvStep St.init args).1 := by
+    rw [← r2]; exact h2
+  exact (placement_of_rel h1' h2').2
+
+theorem gen_meets_sysv_false :
+    genPlace Cfg.current [.i64, .i64, .i64, .i64, .i64, .i64, .i64, .ld]
+      ≠ sysvPlace [.i64, .i64, .i64, .i64, .i64, .i64, .i64, .ld] := by decide
+
+/-! ## the two engines agree with each other -/
+
+/-- **ff_eq_gen** for the repaired tree -/
+theorem ff_eq_gen_fixed (args : List ArgTy) (hws : WellSizedArgs args) :
+    ffPlace Cfg.fixed args = genPlace Cfg.fixed args := by
+  rw [ff_meets_sysv_fixed Cfg.fixed rfl rfl args hws, gen_meets_sysv_fixed Cfg.fixed rfl args hws]
+
+/-- **ff_eq_gen_partial**, the pinned tree: the interpreter and generated code place every argument
+identically when no blk1/blk3/blk4 occurs — *including* the misaligned `long double`s. -/
+theorem ff_eq_gen_partial (args : List ArgTy) (hws : WellSizedArgs args) (hnb : NoBlk134 args) :
+    ffPlace Cfg.current args = genPlace Cfg.current args := by
+  obtain ⟨h1, h2⟩ := ff_run Cfg.current args hws (Or.inr hnb)
+  obtain ⟨g1, g2⟩ := gen_run Cfg.current args hws
+  have e1 := (placement_of_rel h1 h2).1
+  have e2 := (placement_of_rel g1 g2).2
+  exact e1.trans e2.symm
+
+theorem ff_eq_gen_false :
+    ffPlace Cfg.current [.blk .b1 8, .d] ≠ genPlace Cfg.current [.blk .b1 8, .d] := by decide
+
+/-! ## stack size and alignment at the call -/
+
+/-- the outgoing argument area of the psABI placement is a multiple of 16 -/
+theorem sysv_stack_aligned (args : List ArgTy) : (sysvPlace args).stackBytes % 16 = 0 := by
+  simp only [sysvPlace, finish, roundUp]; omega
+
+/-- trampoline: entered with rsp ≡ 8 (mod 16); after `push r12; push rbx; sub ffFrame, rsp` the
+stack pointer at the `call` is 16-byte aligned -/
+theorem ff_call_aligned (sp entry : Nat) (h : entry % 16 = 8) (hbig : ffFrame sp + 16 ≤ entry) :
+    (entry - 16 - ffFrame sp) % 16 = 0 := by
+  simp only [ffFrame] at *; omega
+
+/-- generated code: the frame keeps rsp 16-aligned (C06 `frame_aligned`); the call site subtracts
+`genPlace.stackBytes`, a multiple of 16 -/
+theorem gen_call_aligned (cfg : Cfg) (args : List ArgTy) : (genPlace cfg args).stackBytes % 16 = 0 := by
+  simp only [genPlace]; omega
+
+/-! ## `%al` for variadic callees -/
+
+/-- the trampoline's constant `%al = 8` is always admissible -/
+theorem ff_al_ok (args : List ArgTy) : alOk ffAl args := by
+  simp only [alOk, ffAl, sysvPlace, finish, St.norm]; omega
+
+/-- repaired generator: `%al` = sse registers used -/
+theorem gen_al_fixed (args : List ArgTy) (hws : WellSizedArgs args) : alOk (genAl Cfg.fixed args) args := by
+  obtain ⟨_, h2⟩ := gen_run Cfg.fixed args hws
+  obtain ⟨hs, _⟩ := h2
+  have hs' : (run sysvStep St.init args).1 = (run (genStep Cfg.fixed) St.init args).1.norm := hs
+  simp only [alOk, genAl, Cfg.fixed, sysvPlace, finish, hs', St.norm]
+  simp only [if_true]; omega
+
+/-- **gen_al_partial**, the pinned tree: `%al` is admissible when no blk2/blk3/blk4 argument occurs -/
+theorem gen_al_partial (args : List ArgTy) (hws : WellSizedArgs args) (hnb : NoBlk234 args) :
+    alOk (genAl Cfg.current args) args := by
+  obtain ⟨_, h2⟩ := gen_run Cfg.fixed args hws
+  obtain ⟨hs, _⟩ := h2
+  have hs' : (run sysvStep St.init args).1 = (run (genStep Cfg.fixed) St.init args).1.norm := hs
+  have hc : (run (genStep Cfg.fixed) St.init args).1.nx = 0 + args.countP isFD :=
+    gen_run_nx Cfg.fixed args St.init hnb
+  have hx : (sysvPlace args).xmmUsed = min (min (args.countP isFD) 8) 8 := by
+    simp only [sysvPlace, finish, hs', St.norm, hc, Nat.zero_add]
+  have ha : genAl Cfg.current args = min (args.countP isFD) 8 := by simp [genAl, Cfg.current]
+  simp only [alOk, hx, ha]; omega
+
+theorem gen_al_false : ¬ alOk (genAl Cfg.current [.i64, .blk .b2 8]) [.i64, .blk .b2 8] := by decide
+
+/-! ## results -/
+
+/-- whenever the multi-result convention defines a placement (at most two results per class),
+the trampoline stores exactly those registers -/
+theorem ffRes_meets_sysv (rs : List ResTy) (l : List RLoc) (h : sysvRes rs = some l) : ffRes rs = some l :=
+  res_aux ffResStep ffResStep_ok rs [] l h
+
+/-- … and so does generated code -/
+theorem genRes_meets_sysv (rs : List ResTy) (l : List RLoc) (h : sysvRes rs = some l) : genRes rs = some l :=
+  res_aux genResStep genResStep_ok rs [] l h
+
+theorem ffRes_eq_genRes (rs : List ResTy) (l : List RLoc) (h : sysvRes rs = some l) : ffRes rs = genRes rs := by
+  rw [ffRes_meets_sysv rs l h, genRes_meets_sysv rs l h]
+
+/-! ## narrowing of integer parameters and results -/
+
+/-- two's-complement value of a 64-bit register image -/
+def toInt64 (x : Nat) : Int := if x < 2 ^ 63 then (x : Int) else (x : Int) - 2 ^ 64
+
+/-- two's-complement value of the low `w` bits of `v` -/
+def sval (w v : Nat) : Int :=
+  if v % 2 ^ w < 2 ^ (w - 1) then ((v % 2 ^ w : Nat) : Int) else ((v % 2 ^ w : Nat) : Int) - 2 ^ w
+
+/-- **narrowing**: the receiver of a value passed as type `t` (callee for parameters, MIR code for
+results) sees a 64-bit register that is `ext_t` of the low bits: for signed `t` its two's-complement
+value is the value of the low bits, for unsigned `t` it *is* the low bits, full-width types pass
+unchanged; the image always fits the register. -/
+theorem narrowing (t : ResTy) (v : Nat) :
+    passInt t v < 2 ^ 64 ∧
+    match narrowInfo t with
+    | some (w, true) => toInt64 (passInt t v) = sval w v
+    | some (w, false) => passInt t v = v % 2 ^ w
+    | none => passInt t v = v % 2 ^ 64 := by
+  cases t <;> simp [passInt, narrowInfo, extCode, toInt64, sval] <;> (try split) <;> omega
+
+/-- passing is idempotent (an already extended value is unchanged), so the interpreter's C casts
+and the generator's `ext` instructions may be applied once or twice without difference -/
+theorem narrowing_idem (t : ResTy) (v : Nat) : passInt t (passInt t v) = passInt t v := by
+  cases t <;> simp [passInt, narrowInfo, extCode] <;> (try split) <;> (try split) <;> omega
+
+/-! ## non-vacuity: the hypotheses are satisfiable by non-trivial states -/
+
+/-- a 9-argument list using both register files, the stack, a block in registers, an aligned
+`long double` -/
+example : WellSizedArgs [.i64, .i8, .p, .u32, .i64, .i64, .d, .i64, .i64, .ld, .blk .b2 16, .blk .b0 24] ∧
+    NoBlk134 [.i64, .i8, .p, .u32, .i64, .i64, .d, .i64, .i64, .ld, .blk .b2 16, .blk .b0 24] ∧
+    LdAligned [.i64, .i8, .p, .u32, .i64, .i64, .d, .i64, .i64, .ld, .blk .b2 16, .blk .b0 24] := by decide
+
+example : (sysvPlace [.i64, .i8, .p, .u32, .i64, .i64, .d, .i64, .i64, .ld, .blk .b2 16, .blk .b0 24]).stackBytes = 64 := by
+  decide
+
+/-- with blocks of the mixed kinds (only the repaired trampoline / the generator) -/
+example : WellSizedArgs [.blk .b3 16, .f, .blk .b4 12, .blk .b1 3, .i64, .i64, .i64, .i64, .i64, .blk .b1 16, .ld] ∧
+    LdAligned [.blk .b3 16, .f, .blk .b4 12, .blk .b1 3, .i64, .i64, .i64, .i64, .i64, .blk .b1 16, .ld] := by decide
+
+example : NoBlk234 [.i64, .d, .f, .blk .b1 8, .d, .d, .d, .d, .d, .d, .d, .d] ∧
+    genAl Cfg.current [.i64, .d, .f, .blk .b1 8, .d, .d, .d, .d, .d, .d, .d, .d] = 8 := by decide
+
+example : sysvRes [.i32, .d, .ld, .u8, .f, .ld] = some [.gpr 0, .xmm 0, .st 0, .gpr 1, .xmm 1, .st 1] := by decide
+example : sysvRes [.d, .d, .d] = none := by decide
+
+example : passInt .i8 0x1234567890abcd80 = 0xffffffffffffff80 ∧ passInt .u16 0xffffffffffff8001 = 0x8001 := by
+  decide
+
+example : ∃ sp entry, entry % 16 = 8 ∧ ffFrame sp + 16 ≤ entry := ⟨24, 1000, by decide, by decide⟩
+
+end MirVerif.AbiX64
